@@ -379,6 +379,9 @@ theorem recov_doTick {c : Cfg} {m : Mem} {pc : Pc} (h : Inv c) (hl : LiveInv c m
       rw [hl.wi]
       exact hq.moveB h.st hd (hval (i, some r) (by simp))
   | movingBackup todo => exact hq
+  | fin1 i k => exact absurd hl.pc id
+  | fin2 i k => exact absurd hl.pc id
+  | fin3 i k => exact absurd hl.pc id
 
 theorem recov_tick {c : Cfg} (h : Inv c) {q : Req} (hq : Recoverable c.st q) : Recoverable (fire c .tick).st q := by
   simp only [fire]; split
